@@ -278,6 +278,9 @@ func c19OptionPools(w *vfWorld, htp string) []c19Opt {
 		{"--provider-display-name", []string{"", "<x>", strings.Repeat("n", 3000)}},
 		{"--upstream", []string{up + "/", "static://200", "static://999", "static://abc", "file://" + w.Dir + "#/files/", up + "/app/", up, up + "/#frag", up + "/?q=1", "http://[::1]:1/", "unix:///nonexistent.sock"}},
 		{"--pass-host-header", []string{"true", "false"}},
+		{"--proxy-websockets", []string{"true", "false"}},
+		{"--flush-interval", []string{"1s", "0", "-1s"}},
+		{"--upstream-timeout", []string{"30s", "0", "1ns"}},
 		{"--pass-access-token", []string{"true", "false"}},
 		{"--pass-authorization-header", []string{"true", "false"}},
 		{"--set-xauthrequest", []string{"true", "false"}},
@@ -392,6 +395,7 @@ func c19ConfigSpace(run *vfRun, w *vfWorld, htp string) {
 				run.Count("config_space_logins_completed", 1)
 			}
 			b.Get(p, "/x")
+			b.Send(p, vfGET("/x").H("Connection", "keep-alive, Upgrade").H("Upgrade", "websocket"))
 			b.Get(p, pre+"/auth")
 			b.Get(p, pre+"/userinfo")
 			b.Get(p, pre+"/sign_out")
